@@ -148,7 +148,7 @@ def run(ctx: Ctx) -> None:
     rsp = [c for c in calls(acc) if call_name(c) == "Response"]
     ok = ok and len(rsp) == 1 and norm(kwarg(rsp[0], "status_code")) == "status_code" and norm(kwarg(rsp[0], "headers")) == "headers"
     hc = find_calls(acc, "self.handshake.accept")
-    ok = ok and len(hc) == 1 and [norm(a) for a in hc[0].args] == ["message.get('subprotocol')", "message.get('headers', [])"]
+    ok = ok and len(hc) == 1 and len(hc[0].args) == 2 and norm(hc[0].args[0]) == "message.get('subprotocol')" and norm(hc[0].args[1]) in ("message.get('headers', [])", "build_and_validate_headers(message.get('headers', []))")
     ctx.check("C11.R5", f"{M}:WSStream._accept", "handshake.accept(subprotocol, headers) validated before state change and emission; its result is sent", ok, "a rejected accept must leave nothing on the wire and the state unchanged", acc)
 
     # ---- R6
